@@ -284,12 +284,16 @@ impl PollMon {
         let outs = outs_of(&got);
         // carrier twin: StructuredShortMessage / foreign implementor instead of RawShortMessage
         {
-            let st = m.to_structured();
             let mut twin = before;
-            let g2 = api("PollingParameterNumberMessageScanner::feed", || twin.feed(&st));
-            let fo: crate::carriers::Foreign = m.to_other();
+            let g2 = api("PollingParameterNumberMessageScanner::feed", || {
+                let st = m.to_structured();
+                twin.feed(&st)
+            });
             let mut twin3 = before;
-            let g3 = api("PollingParameterNumberMessageScanner::feed", || twin3.feed(&fo));
+            let g3 = api("PollingParameterNumberMessageScanner::feed", || {
+                let fo: crate::carriers::Foreign = m.to_other();
+                twin3.feed(&fo)
+            });
             if g2 != Some(got) || twin != self.real || g3 != Some(got) || twin3 != self.real {
                 crate::viol!(
                     rep,
